@@ -18,6 +18,16 @@ pub fn gen_case(r: &mut Rng, out: &mut String) {
         }
         return;
     }
+    if r.chance(1, 12) {
+        // the stream of the OTHER type
+        let g64 = super::stream64::gen_stream64(r, true, false);
+        let h = hex(&g64.bytes);
+        writeln!(out, "note treemap stream handed to the 32-bit decoder").unwrap();
+        writeln!(out, "new b0").unwrap();
+        writeln!(out, "deser chk b0 {}", h).unwrap();
+        writeln!(out, "dump b0").unwrap();
+        writeln!(out, "spec_decode {}", h).unwrap();
+    }
     // mostly small streams so that many corruptions fit in the budget; some with bitset chunks
     let small = r.chance(1, 2);
     let g = stream::gen_stream(r, small);
